@@ -89,9 +89,10 @@ func NameShapes() []NameShape {
 		{Label: "% directory and trailing %", Dir: "%d%%", Tail: "%"},
 		// ---- blanks
 		d("blank in a directory", "my models"),
-		// (a name that itself starts with white space is kept out: yang.Parse trims the whole error
-		// text, so the first error line loses it — reported as a finding of its own; the blank
-		// leads a later component here)
+		// a name that itself starts with white space: yang.Parse used to trim the whole error text,
+		// so the first error line lost it (defect D68, repaired in /repo)
+		d("leading blank", " lead"),
+		d("leading tab", "\tlead"),
 		d("leading blank in a component", "in/ lead"),
 		d("trailing blank", "trail "),
 		d("two blanks", "a  b"),
@@ -158,30 +159,30 @@ var namedBodies = []string{
 	"a;",
 	"module m { // c\n  leaf l { type string; description \"one\n                                 two\"; } /* x */ }",
 	"a \"b\" + 'c' + \"d\" { e 'f'; }\n\tg {\n\t\th %s;\r\n\t} é \"%d\";",
-	"a { b { c; } } }",           // unexpected }
-	"}",                          // unexpected } at the start
-	"a;\n  } b;",                 // unexpected } on line 2
-	"a { b {",                    // missing closing braces
-	"a {",                        // missing 1 closing brace
-	"a \"b\" +",                  // unexpected EOF
-	"a",                          // unexpected EOF
-	"a b c;",                     // expected ; or {
-	"a b %s;",                    // expected ; or {, the token is a verb
-	"a b\n  %d%v { x; }",         // expected ; or {
-	"\"a\" b;",                   // keyword token not an unquoted string
-	"x; '%s' b;",                 // keyword token not an unquoted string, the token is a verb
-	"a \"\\q\";",                 // invalid escape
-	"a \"%s\\%\";",               // invalid escape: \%
-	"é \"\\é\" ;\n b \"\\z\";",  // two invalid escapes
-	"a 'x",                       // missing closing '
-	"a\n\t'%v",                   // missing closing '
-	"a \"x",                      // missing closing "
-	"a \"%d\n  %s",               // missing closing "
-	"a /* x",                     // missing closing */
-	"/*/a;",                      // missing closing */
-	"a \"\\q\\q\\q\\q\\q\\q\\q\\q\" b;",      // eight errors
-	"a \"\\q\\q\\q\\q\\q\\q\\q\\q\\q\" b;",   // too many errors
-	"} } } } } } } } } }",        // many unexpected }
+	"a { b { c; } } }",                     // unexpected }
+	"}",                                    // unexpected } at the start
+	"a;\n  } b;",                           // unexpected } on line 2
+	"a { b {",                              // missing closing braces
+	"a {",                                  // missing 1 closing brace
+	"a \"b\" +",                            // unexpected EOF
+	"a",                                    // unexpected EOF
+	"a b c;",                               // expected ; or {
+	"a b %s;",                              // expected ; or {, the token is a verb
+	"a b\n  %d%v { x; }",                   // expected ; or {
+	"\"a\" b;",                             // keyword token not an unquoted string
+	"x; '%s' b;",                           // keyword token not an unquoted string, the token is a verb
+	"a \"\\q\";",                           // invalid escape
+	"a \"%s\\%\";",                         // invalid escape: \%
+	"é \"\\é\" ;\n b \"\\z\";",             // two invalid escapes
+	"a 'x",                                 // missing closing '
+	"a\n\t'%v",                             // missing closing '
+	"a \"x",                                // missing closing "
+	"a \"%d\n  %s",                         // missing closing "
+	"a /* x",                               // missing closing */
+	"/*/a;",                                // missing closing */
+	"a \"\\q\\q\\q\\q\\q\\q\\q\\q\" b;",    // eight errors
+	"a \"\\q\\q\\q\\q\\q\\q\\q\\q\\q\" b;", // too many errors
+	"} } } } } } } } } }",                  // many unexpected }
 	"a b c; d e f; } \"k\" v; w 'x",
 	"",
 	"\n",
